@@ -41,6 +41,14 @@ CHECKS = {
           'sched', 'DESIGN.md section 4 C20',
           'Generated TokenBucket histories (drain, bursts, blocking drain, peek, clock steps 0..1e6, limit changes) and generated writer runs with both buckets active; oracle: every window between two grants/backend calls obeys rate*w + 2*burst per limit epoch, blocking sleeps bounded by deficit/rate of an independent continuously refilled bucket, no refusal while that bucket has tokens.',
           'Virtual clock replaces carbon.util.time/sleep; reference-bucket judgments are suspended after a limit decrease (see DESIGN.md corrections).'),
+  'C05': ('exploration', 'property-based testing over generated configurations with exhaustive enumeration of the 65536-position key space; validity-predicate oracle',
+          'ring', 'DESIGN.md section 4 C05',
+          'Generated destination sets x RF x DIVERSE_REPLICAS x router x hash type; every ring position is reached through a real metric name (exhaustively for some configurations, at all ring-entry boundaries for the rest) and the returned list is checked for count, membership, port, repeats, server diversity and determinism. One genuine defect found and fixed.',
+          'mmh3_ch not covered (library absent).'),
+  'C06': ('exploration', 'model-based property-based testing: differential comparison with an independent reference ring over generated membership histories, exhaustive in the key space',
+          'ring', 'DESIGN.md section 4 C06',
+          'Generated ordered node lists and leave/rejoin histories through the real router; after every operation the real preference list at every ring position (or every boundary position) is compared with an independent re-implementation of the published algorithm, with the list before the operation (minimal disruption) and at the end with a fresh router (history independence). The algorithm\'s own join-order dependence under collisions is a recorded known finding.',
+          'Reference ring in verif/ref/ring.py is self-checked against the literal vectors of the repository tests.'),
 }
 
 PENDING_REASON = 'check not built yet in this session (design in DESIGN.md section 4); will be claimed once its check is quiet on the unchanged tree and catches its mutants'
@@ -90,6 +98,8 @@ def main():
 
 NA = {}
 ENGINES = [
+  {'name': 'ring', 'path': 'verif/ref/ring.py', 'serves_properties': ['C05', 'C06', 'C16'],
+   'kind_free_text': 'independent re-implementation of the published carbon_ch/fnv1a_ch ring + a real metric name for each of the 65536 ring positions'},
   {'name': 'sched', 'path': 'verif/sched.py', 'serves_properties': ['C02', 'C03', 'C04', 'C09', 'C10', 'C17', 'C20'],
    'kind_free_text': 'deterministic cooperative scheduler (sys.settrace line events, scheduler-aware lock, virtual clock) with schedules as data; linearizability search in verif/lin.py; cache driver in verif/cachesim.py'},
   {'name': 'wire', 'path': 'verif/wire.py', 'serves_properties': ['C01', 'C11', 'C12', 'C13', 'C15'],
